@@ -312,13 +312,16 @@ type CacheCase struct {
 	// slice; 1: consecutive pieces of one array per kind, each with capacity up to the array's end
 	// (fine[:5] next to the rest of fine: writing one element past a slice's length lands in the
 	// next histogram's bounds); 2: each in its own slice with three spare slots holding other numbers
+	// 3: ONE buffer per kind, refilled for every creation and overwritten right after the samples
+	// of that histogram were recorded (a caller that builds its bucket sets in a scratch buffer):
+	// a histogram keeps the bounds - and the specification reported with them - it was created with
 	Layout int `json:"layout,omitempty"`
 }
 
 // materialize builds all bucket slices up front (before any Histogram call) according to the layout
 // and returns them together with the arenas whose whole capacity must stay untouched.
 func (c CacheCase) materialize() (specs []tally.Buckets, arenaV []float64, arenaD []time.Duration) {
-	if c.Layout == 0 {
+	if c.Layout == 0 || c.Layout == 3 {
 		for _, h := range c.Hists {
 			specs = append(specs, h.buckets())
 		}
@@ -366,7 +369,7 @@ func (c CacheCase) materialize() (specs []tally.Buckets, arenaV []float64, arena
 }
 
 func genCache(t *rapid.T) CacheCase {
-	c := CacheCase{Cached: rapid.Bool().Draw(t, "cached"), Layout: rapid.SampledFrom([]int{0, 0, 1, 1, 2}).Draw(t, "layout")}
+	c := CacheCase{Cached: rapid.Bool().Draw(t, "cached"), Layout: rapid.SampledFrom([]int{0, 0, 1, 1, 2, 3}).Draw(t, "layout")}
 	// base set
 	nb := rapid.IntRange(1, 5).Draw(t, "nbase")
 	base := make([]uint64, nb) // bit patterns / nanoseconds
@@ -672,8 +675,24 @@ func runCache(c CacheCase) (pbt.Outcome, error) {
 	names := make([]string, len(c.Hists))
 	specs, arenaV, arenaD := c.materialize()
 	arenaV0, arenaD0 := append([]float64(nil), arenaV...), append([]time.Duration(nil), arenaD...)
+	var bufV []float64
+	var bufD []time.Duration
+	if c.Layout == 3 {
+		bufV, bufD = make([]float64, 16), make([]time.Duration, 16)
+	}
 	for i, h := range c.Hists {
 		spec := specs[i]
+		if c.Layout == 3 && len(h.V) <= len(bufV) && len(h.D) <= len(bufD) {
+			if h.Dur {
+				sl := bufD[:len(h.D)]
+				copy(sl, spec.(tally.DurationBuckets))
+				spec = tally.DurationBuckets(sl)
+			} else {
+				sl := bufV[:len(h.V)]
+				copy(sl, spec.(tally.ValueBuckets))
+				spec = tally.ValueBuckets(sl)
+			}
+		}
 		var before tally.Buckets
 		if h.Dur {
 			before = append(tally.DurationBuckets(nil), spec.(tally.DurationBuckets)...)
@@ -692,6 +711,9 @@ func runCache(c CacheCase) (pbt.Outcome, error) {
 			} else {
 				hist.RecordValue(s.V())
 			}
+		}
+		for j := range bufV {
+			bufV[j], bufD[j] = -7.25, -7 // the caller's scratch buffer moves on
 		}
 	}
 	tally.VerifReportOnce(root)
